@@ -3,6 +3,7 @@ package props
 import (
 	"encoding/base64"
 	"fmt"
+	"github.com/ory/fosite/storage"
 	"net/url"
 	"strings"
 	"testing"
@@ -223,7 +224,34 @@ func TestC10_ClientAuthentication(t *testing.T) {
 
 		// ---- the presentation under test
 		transport := rapid.SampledFrom([]string{"basic", "basic", "basic-raw", "body", "body", "both", "both-no-id", "neither", "id-only", "malformed-header", "assertion", "assertion-other-method"}).Draw(rt, "transport")
-		relation := rapid.SampledFrom([]string{"current", "current", "rotated", "wrong", "empty", "other-clients", "hash-itself", "prefix-of-current", "current-plus-suffix"}).Draw(rt, "relation")
+		relation := rapid.SampledFrom([]string{"current", "current", "rotated", "wrong", "empty", "other-clients", "other-clients", "withdrawn", "hash-itself", "prefix-of-current", "current-plus-suffix"}).Draw(rt, "relation")
+		// history before the presentation under test: the other client may have authenticated successfully with
+		// its own secret (it must still not work for c), and c's secret may have been replaced after c used it
+		if relation == "other-clients" && rapid.Bool().Draw(rt, "otherClientAuthenticatedBefore") {
+			tr := w.Token(url.Values{"grant_type": {"client_credentials"}, "scope": {"a"}}, h.Auth{BasicUser: other.id, BasicPass: other.secret}, h.TokenOpts{})
+			if !tr.OK() {
+				rt.Fatalf("VERIF-INFRA: warm-up authentication of the other client failed: %v", tr.Err)
+			}
+			h.Label("other-client-authenticated-before")
+		}
+		withdrawnSecret := ""
+		if relation == "withdrawn" {
+			if c.public || c.secret == "" || !c.canAuthenticate() || (c.oidc && c.method == "private_key_jwt") {
+				relation = "wrong"
+			} else {
+				a, f := c.legit(w, nextJTI())
+				f.Set("grant_type", "client_credentials")
+				f.Set("scope", "a")
+				if tr := w.Token(f, a, h.TokenOpts{}); !tr.OK() {
+					rt.Fatalf("VERIF-INFRA: legit authentication before the secret change failed: %v %s", tr.Err, tr.Err.Hint)
+				}
+				withdrawnSecret = c.secret
+				c.secret = "replacement-" + c.secret
+				c.rotated = nil
+				c.register(w) // the administrator replaces the registration: the old secret is gone
+				h.Label("secret-withdrawn-after-use")
+			}
+		}
 		value := ""
 		switch relation {
 		case "current":
@@ -239,6 +267,8 @@ func TestC10_ClientAuthentication(t *testing.T) {
 			value = "definitely-wrong"
 		case "empty":
 			value = ""
+		case "withdrawn":
+			value = withdrawnSecret
 		case "other-clients":
 			value = other.secret
 		case "hash-itself":
@@ -375,8 +405,22 @@ func TestC10_ClientAuthentication(t *testing.T) {
 		case "token/jwt_bearer":
 			form.Set("grant_type", jwtBearerGrant)
 			form.Set("assertion", "not-a-jwt")
-			tr := w.Token(form, auth, h.TokenOpts{})
+			if skipAuthJWT {
+				// a valid assertion: the grant itself succeeds; what matters is in whose name
+				w.Mem.IssuerPublicKeys["iss-1"] = storage.IssuerPublicKeys{Issuer: "iss-1", KeysBySub: map[string]storage.SubjectPublicKeys{
+					"sub-1": {Subject: "sub-1", Keys: map[string]storage.PublicKeyScopes{"k1": {Key: jwkPtr(h.PublicJWK(h.RSAKey(0), "k1", "RS256")), Scopes: []string{"a"}}}}}}
+				now := h.Now()
+				form.Set("assertion", h.MustSignJWT(h.RSAKey(0), "RS256", "k1", map[string]interface{}{"iss": "iss-1", "sub": "sub-1", "aud": []string{h.TokenURL}, "exp": now.Add(300e9).Unix(), "iat": now.Unix(), "jti": nextJTI()}))
+				form.Set("scope", "a")
+			}
+			tr := w.Token(form, auth, h.TokenOpts{Session: h.NewSess("")})
 			errInfo, issued = tr.Err, tr.Access != ""
+			if skipAuthJWT && tr.Access != "" && !proven && !c.public {
+				if d := w.IntrospectDirect(tr.Access, fosite.AccessToken); d.Active && d.ClientID == c.id {
+					h.Violate(rt, "C10/skip-auth-request-processed-in-clients-name", "a JWT-bearer request whose client authentication failed (handler allows skipping it) was processed in the name of confidential client %q: the token carries its client_id", c.id)
+				}
+				h.Label("jwt-bearer-anonymous-after-failed-client-auth")
+			}
 		case "revoke":
 			form.Set("token", access)
 			r := w.Revoke(form, auth)
@@ -433,7 +477,7 @@ func TestC10_ClientAuthentication(t *testing.T) {
 			if endpoint == "token/client_credentials" && (issued || errInfo.OK()) {
 				h.Violate(rt, "C10/public-client-credentials", "public client obtained tokens through client_credentials: %s", desc)
 			}
-			if !identifiedPublic && (issued || (errInfo.OK() && endpoint != "token/jwt_bearer")) {
+			if !identifiedPublic && !(endpoint == "token/jwt_bearer" && skipAuthJWT) && (issued || (errInfo.OK() && endpoint != "token/jwt_bearer")) {
 				h.Violate(rt, "C10/anonymous-request-processed", "request without any client identification was processed: %s", desc)
 			}
 			return
